@@ -99,3 +99,7 @@ claim("C24",
       "Listener callbacks of the CTE decoder (ExitValueInt, parseIntElement/parseUintElement, ExitCodepointContents, ExitEscapeChar) are driven with a symbolic token text constrained to the lexer rule's shape (sign, base prefix in either case, 1..3 symbolic digits, digit separators); a digit-accumulating reference gives the spelled value; z3 shows the emitted event / element bytes carry exactly that value, elements are rejected exactly when they do not fit, and escapes decode to the spelled character.",
       "The ANTLR lexer/parser is not executed (token shapes taken from CTELexer.g4). Float literals, verbatim sequences, line continuations and integers beyond 64 bits are outside reach.",
       "DESIGN.md §5 C24")
+claim("C02",
+      "One kernel of C02 only: the time-zone latitude/longitude hundredths. Both hundredths are solver variables over their whole valid range; the real cte.parseTimezone runs with regexp and strconv.ParseFloat replaced by the contract 'the text of %.2f parses back to float64(h)/100' (checked natively on replay with the real regexp/ParseFloat); z3 shows the Timezone built carries the original hundredths.",
+      "A pass says nothing about the rest of C02: string escaping, comments, numeric text, all other time forms and every whole-document CTE round trip go through the ANTLR lexer/parser, which the engine cannot execute.",
+      "DESIGN.md §5 C02")
